@@ -301,7 +301,10 @@ CHECKS = {
                  "unset fields carry the other side's values in both directions, incompatible ends and a conflicting second "
                  "target end in a metadata error (links of any length that do not rewrite metadata). Tied to info.py, "
                  "sdk/output.py, sdk/input.py, sdk/adapter.py, adapters/*.py by a differential run of producer/consumer "
-                 "combinations through real Composition.connect() plus a location-based oracle."),
+                 "combinations through real Composition.connect() plus a location-based oracle; the compatibility rule itself "
+                 "(masks_compatible, Info.accepts) is regenerated from mask.py / info.py on every run and proved equal to the "
+                 "model's masksCompatible / accepts (tr_masks_compatible, tr_Info_accepts), the translation validated against the "
+                 "real functions on the catalogue."),
         "design_ref": "5/C07",
         "technique": "Lean 4 proof (induction over adapter chains with an adapter-state invariant; case analysis of accepts/get_info) + model/implementation correspondence",
     },
